@@ -16,9 +16,9 @@ structure Msg where
   sessionID : Int        -- -1 = not set
   sysBytes : Bytes
 
-def dirHE : Bytes := str "H->E"
-def dirEH : Bytes := str "H<-E"
-def dirBoth : Bytes := str "H<->E"
+def dirHE : Bytes := [72, 45, 62, 69]        -- "H->E"
+def dirEH : Bytes := [72, 60, 45, 69]        -- "H<-E"
+def dirBoth : Bytes := [72, 60, 45, 62, 69]  -- "H<->E"
 
 /-- DataMessage.checkRep -/
 def Msg.valid (m : Msg) : Bool :=
